@@ -98,7 +98,11 @@ def oracle(ctx: Ctx, res) -> None:
             ctx.count("refs-followed")
             ok, why = oc.resolve_ref(cr, fn, v)
             if not ok:
-                ctx.fail("dead-link:template:" + why, payload, "%s: %s=%r leads nowhere (%s)" % (fn, attr, v, why))
+                sig = "dead-link:template:" + why
+                if v.startswith("#") and ("rst-" + oc.unquote(v[1:])) in pg["anchors"]:
+                    # markup written by docutils itself: pydoctor prefixes ids with 'rst-', this href was not
+                    sig = "dead-link:rst-docstring:unprefixed-fragment"
+                ctx.fail(sig, payload, "%s: %s=%r leads nowhere (%s)" % (fn, attr, v, why))
     # search documents: every lunr ref has its document, whose url leads somewhere
     docs = {}
     pg = cr["pages"].get("all-documents.html")
@@ -127,12 +131,26 @@ def oracle(ctx: Ctx, res) -> None:
 
 
 def run(ctx: Ctx) -> None:
-    n = 700 if ctx.quick else 7000
-    good = oc.crawl_and_compare(ctx, n, 1 if ctx.quick else 2)
+    total = 700 if ctx.quick else 7000
+    rule_lists = 1 if ctx.quick else 2
+    batch = 350
+    done = 0
+    first = True
+    while done < total:
+        n = min(batch, total - done)
+        extra = oc.real_package_cases(ctx.rng) if first else ()
+        good = oc.crawl_and_compare(ctx, n, rule_lists, extra_cases=extra, scenarios=first)
+        first = False
+        done += n
+        _account(ctx, good)
+        del good
+
+
+def _account(ctx: Ctx, good) -> None:
     for res in good:
         t = res["truth"]
         nt = nontrivial(res)
-        canon = repr((sorted(res["case"]["units"].items()), res["case"]["privacy"], sorted(res["case"]["opts"].items())))
+        canon = repr((sorted(res["case"]["units"].items()), res["case"].get("path"), res["case"]["privacy"], sorted(res["case"]["opts"].items())))
         ctx.case(canon, nt, {"name": res["case"]["name"], "privacy": res["case"]["privacy"], "opts": res["case"]["opts"],
                              "modules": sorted(res["case"]["units"])} if nt else None)
         ctx.count("theme:" + res["case"]["opts"].get("theme", "classic"))
